@@ -25,11 +25,27 @@ RULE = ("masks up to 6x6 with 1..10 unmasked pixels (densities 0.15-0.9, single 
         "aa.mesh.Delaunay().mapper_grids_from + aa.Mapper; each mapper is observed at pix_sub_weights, mapping_matrix, unique_mappings and "
         "neighbors; (d) util-level mapping_matrix_from / data_slim_to_pixelization_unique_from on arbitrary index/weight arrays "
         "(repeated source pixels, signed weights, zero sizes, out-of-range indices); (e) slim_for_sub_slim for masks x sub-size maps; "
-        "(f) rectangular_neighbors_from for every shape 2..9 x 2..9 (quick) / 2..16 (thorough) via the util and Mesh2DRectangular.neighbors. "
+        "(f) rectangular_neighbors_from for every shape 2..9 x 2..9 (quick) / 2..16 (thorough) via the util and Mesh2DRectangular.neighbors; "
+        "(g) HISTORIES on one mapper object carrying an adapt image and an AdaptiveBrightness regularization (rectangular or Delaunay, up to 5 "
+        "image pixels): a random sequence over {pix_sub_weights, the three per-field accessors, mapping_matrix, unique_mappings, neighbors, "
+        "pixel_signals_from(scale 0..3), regularization_weights_from, regularization_matrix (the mapper's own and other coefficients)} with 60% of "
+        "the histories asking for the signals BEFORE anything is cached, every observable read again at the end after further signal queries, "
+        "1..4 other public calls interleaved as perturbers (data_weight_total_for_pix_from, mapped_to_source_from, sub_slim_indexes_for_pix_index(_arr), "
+        "pix_indexes_for_slim_indexes, edge_pixel_list, interpolated_array_from, regularization matrices of Constant / ConstantZeroth / "
+        "BrightnessZeroth / ConstantSplit / AdaptiveBrightnessSplit / GaussianKernel), every array a method hands back overwritten by the caller, "
+        "EVERY observation of the history compared with the model and the specification inside Coq, a closing sweep re-reading all observables, "
+        "and the arrays handed to the mapper compared with their snapshots; in 35% of the histories a SECOND mapper over the same mask / "
+        "over-sampler (for Delaunay half of the time the same mesh object) with a different source plane and adapt image is interleaved "
+        "call by call; adapt images with exact zeros, one-hot, all-equal, and scaled by 2^-40 / 2^30. "
+        "All mapper streams: the source grid is a fresh Grid2DIrregular, one derived by arithmetic (0.5 * doubled grid) or the over-sampler's "
+        "own sub-pixel grid plus a deflection; a quarter of the exact rectangular and of the Delaunay cases have the whole source plane scaled "
+        "by 2^-30, 2^-10 or 2^20; a third of the Delaunay cases put data points 2^-8..2^-26 away from a vertex or the midpoint of two vertices "
+        "(tiny non-zero weights); every fresh mapper is read twice (and through the per-field accessors) and its inputs are compared with snapshots. "
         "Non-trivial = more than one source pixel receives flux; distinct = distinct JSON input.")
 EXHAUSTIVE = {"quick": "rectangular neighbour arrays: every mesh shape H, W in 2..9",
               "thorough": "rectangular neighbour arrays: every mesh shape H, W in 2..16"}
-TRUSTED = ["hand-written Gallina model coq/Model/C06.v, tied to /repo by this correspondence run (comparison evaluated inside Coq by vm_compute, "
+TRUSTED = ["hand-written Gallina model coq/Model/C06.v + coq/Model/C06h.v (history layer: pixel signals, adaptive-brightness regularization, "
+           "cache state machine), tied to /repo by this correspondence run (comparison evaluated inside Coq by vm_compute, "
            "exact on the dyadic streams, |diff| <= 1e-9 where a division by 3/5/... or by a triangle area is involved)",
            "scipy.spatial.Delaunay (qhull) is an oracle: simplices / find_simplex / vertex_neighbor_vertices are inputs of the model; their contract "
            "(reported simplex contains the point, -1 only outside every simplex, non-degenerate simplices, neighbour lists = edges of the simplices) "
@@ -345,9 +361,9 @@ def source_grid(aa, osr, grid, kind, subs):
     """the source-plane data grid as the library would hand it over: a fresh Grid2DIrregular, or one DERIVED by arithmetic
     (halving a doubled grid; the over-sampler's own sub-pixel grid plus a deflection, which is what a ray-tracing caller does)"""
     vals = np.array([[float(p[0]), float(p[1])] for p in grid])
-    if kind == "osg" and all(s in (1, 2, 4) for s in subs):
-        osg = osr.over_sampled_grid
-        src = osg + (vals - np.array(osg))
+    osg = np.array(osr.over_sampled_grid) if kind == "osg" else None
+    if kind == "osg" and np.array_equal(osg + (vals - osg), vals):      # the deflection reproduces the target exactly in doubles
+        src = osr.over_sampled_grid + (vals - osg)
     elif kind == "scaled":
         src = aa.Grid2DIrregular(values=2.0 * vals) * 0.5
     else:
@@ -355,14 +371,21 @@ def source_grid(aa, osr, grid, kind, subs):
     assert np.array_equal(np.array(src), vals)
     return src
 
+def sub_size_map(aa, inp, mask):
+    """the per-pixel sub-size map: slim values, or the same map handed over in its native 2D layout (zeros under the mask)"""
+    subs = [float(s) if inp.get("fsub") else int(s) for s in inp["subs"]]
+    if inp.get("src") == "scaled":
+        it = iter(subs)
+        return aa.Array2D(values=[[0 if b else next(it) for b in r] for r in inp["m"]], mask=mask)
+    return aa.Array2D(values=subs, mask=mask)
+
 def build_common(aa, inp, mask=None, osr=None):
     m = inp["m"]; subs = inp["subs"]
     grid = [(F(p[0]), F(p[1])) for p in inp["grid"]]
     if mask is None:
         mask = aa.Mask2D(mask=np.array(m, dtype=bool), pixel_scales=1.0)
         # "fsub": the sub-size map is stored as floats, which is what OverSamplingUniform.from_radial_bins / from_adaptive_scheme produce
-        ss = aa.Array2D(values=[float(s) if inp.get("fsub") else int(s) for s in subs], mask=mask)
-        osr = aa.OverSamplerUniform(mask=mask, sub_size=ss)
+        osr = aa.OverSamplerUniform(mask=mask, sub_size=sub_size_map(aa, inp, mask))
     assert osr.sub_total == len(grid) and len(osr.over_sampled_grid) == len(grid)
     src = source_grid(aa, osr, grid, inp.get("src", "plain"), subs)
     return m, subs, grid, mask, osr, src
@@ -513,8 +536,7 @@ def run_hist(aa, inp):
         adapt = aa.Array2D(values=2.0 * av, mask=mask) * 0.5 if inp.get("adapt_derived") else aa.Array2D(values=av, mask=mask)
         assert np.array_equal(np.array(adapt), av)
         if first is None:
-            ss = aa.Array2D(values=[float(s) if b.get("fsub") else int(s) for s in b["subs"]], mask=mask)
-            osr = aa.OverSamplerUniform(mask=mask, sub_size=ss)
+            osr = aa.OverSamplerUniform(mask=mask, sub_size=sub_size_map(aa, b, mask))
         else:
             osr = first["osr"]
         mesh = first["mg"].source_plane_mesh_grid if (first and b["op"] == "del" and inp.get("share_mesh")) else None
